@@ -93,6 +93,12 @@ class KeyEnv:
 
 GOOD_FILES = {
     b'ctxa': b'1 100 aabbcc\n7 200 c00c1e\n',
+    # the wanted cookie (id 7) after a blank, a half-written, a four-field and a one-field line
+    b'ctxc': b'\n5 1\n6 1 2 3\nx\n7 200 c00c1e\n8 300 dd\n',
+    # ... before such lines, last line unterminated; an earlier line with the id as a later field
+    b'ctxd': b'3 7 7\n7 200 c00c1e\ngarbage\n\n9 9',
+    # ... surrounded by blanks and tabs, CRLF line ends
+    b'ctxe': b' \t\r\n\t7\t200  c00c1e \r\n',
     b'ctxb': b'garbage\n7 1 2 3\n\n 9\t123\tfeed \r\n7 9 dead\n7 10 beef',
     b'ctxdir': None,      # a directory: open() raises
 }
@@ -585,6 +591,7 @@ BASE_ALPHABET = [
     b'OK 1234deadbeef',
     b'OK',
     b'OK zz',
+    b'OK  ',                      # the argument is one blank: no GUID
     b'AGREE_UNIX_FD',
     b'ERROR',
     b'DATA',
@@ -601,6 +608,13 @@ RICH_ALPHABET = BASE_ALPHABET + [
     b'OK 123',
     b'OK 12 34',
     b'OK ',
+    b'OK   ',
+    b'OK \t',
+    b'OK \t \x0b\x0c ',
+    b'OK  \r',
+    b'OK \n',
+    b'OK \x00',
+    b'OK\t',
     b'ok 1234',
     b'AGREE_UNIX_FD extra',
     b' OK 1234',
@@ -610,6 +624,13 @@ RICH_ALPHABET = BASE_ALPHABET + [
     b'DATA ' + cookie_payload(b'ctxb', b'7'),
     b'DATA ' + cookie_payload(b'ctxb', b'9'),
     b'DATA ' + cookie_payload(b'ctxa', b'99'),
+    b'DATA ' + cookie_payload(b'ctxc', b'7'),
+    b'DATA ' + cookie_payload(b'ctxc', b'8'),
+    b'DATA ' + cookie_payload(b'ctxc', b'6'),
+    b'DATA ' + cookie_payload(b'ctxd', b'7'),
+    b'DATA ' + cookie_payload(b'ctxd', b'9'),
+    b'DATA ' + cookie_payload(b'ctxd', b'3'),
+    b'DATA ' + cookie_payload(b'ctxe', b'7'),
     b'DATA ' + cookie_payload(b'missing', b'7'),
     b'DATA ' + cookie_payload(b'ctxdir', b'7'),
     b'DATA ' + cookie_payload(b'ct\xffx', b'7'),
@@ -811,6 +832,9 @@ class RefServer:
         return [b'ERROR']
 
 
+# contexts of the scratch keyrings that hold the reference server's cookie (id 7, c00c1e) - known by
+# construction of GOOD_FILES, not by parsing
+COOKIE_CONTEXTS = (b'ctxa', b'ctxc', b'ctxd', b'ctxe')
 SRV = dict(guid_hex=b'6abbe624c672777bd87ab46e00027706', ctxname=b'ctxa', cid=b'7', cookie=b'c00c1e', challenge=b'feedface')
 MECHS = (b'EXTERNAL', b'DBUS_COOKIE_SHA1', b'ANONYMOUS')
 
@@ -830,7 +854,8 @@ def deliveries(maxlen):
 def spec_handshake(world, envs, cfg, deliver=None, twist=None):
     """Real client against the Python reference server.  Returns (transcript, session, server).
     deliver: how one server answer (with its CRLF) is cut into reads; None = one read per round."""
-    srv = RefServer(set(cfg['accepts']), cfg['fd_agree'], twist=twist, **SRV)
+    srv = RefServer(set(cfg['accepts']), cfg['fd_agree'], twist=twist,
+                    **dict(SRV, ctxname=cfg.get('ctx', 'ctxa').encode()))
     s = Session(world, cfg['unix'], envs[cfg['env']])
     transcript = []
     done = 0   # client lines already delivered
@@ -862,7 +887,7 @@ def hs_driver_line(cfg, envs):
     acc = set(cfg['accepts'])
     return ' '.join(['hs', '1' if cfg['unix'] else '0'] + ['1' if m in acc else '0' for m in MECHS]
                     + ['1' if cfg['fd_agree'] else '0', hx(SRV['guid_hex'])] + env.driver_tokens()
-                    + [hx(SRV['ctxname']), hx(SRV['cid']), hx(SRV['cookie']), hx(SRV['challenge'])])
+                    + [hx(cfg.get('ctx', 'ctxa').encode()), hx(SRV['cid']), hx(SRV['cookie']), hx(SRV['challenge'])])
 
 
 def hs_key(transcript):
@@ -877,6 +902,11 @@ def hs_key(transcript):
         if k == 'C' and l.startswith(b'ERROR ') and b'cookie_dir' in l:
             return ('cookie-dir-attribute-typo',
                     "every DBUS_COOKIE_SHA1 challenge is answered with ERROR %r" % (l[6:70],))
+    for k, l in t:
+        if k == 'C' and l.startswith(b'ERROR ') and b'NoneType' in l:
+            return ('cookie-in-keyring-not-found',
+                    'the keyring file holds the wanted cookie, yet the client answers the challenge with %r'
+                    % (l[:60],))
     for i in range(len(t)):
         if t[i][0] == 'S' and t[i][1].startswith(b'DATA') and (i + 1 >= len(t) or t[i + 1][0] != 'C'):
             return ('data-during-anonymous-stalls', 'a DATA line of the server is left unanswered; the handshake stalls')
@@ -886,7 +916,9 @@ def hs_key(transcript):
 def expected_complete(cfg, envs):
     acc = set(cfg['accepts'])
     return (b'EXTERNAL' in acc or b'ANONYMOUS' in acc
-            or (b'DBUS_COOKIE_SHA1' in acc and envs[cfg['env']].usable and b'ctxa' in envs[cfg['env']].files))
+            or (b'DBUS_COOKIE_SHA1' in acc and envs[cfg['env']].usable
+                and cfg.get('ctx', 'ctxa').encode() in COOKIE_CONTEXTS
+                and cfg.get('ctx', 'ctxa').encode() in envs[cfg['env']].files))
 
 
 def run_partner_handshakes(ctx, world, envs):
@@ -921,12 +953,16 @@ def run_spec_handshakes(ctx, world, envs):
             for unix in (False, True):
                 for fd in (False, True):
                     for env in sorted(envs):
-                        cfgs.append({'accepts': [a.decode() for a in acc], 'unix': unix, 'fd_agree': fd, 'env': env})
+                        # keyring layouts: the server's cookie stands in differently written files
+                        for cx in (COOKIE_CONTEXTS if b'DBUS_COOKIE_SHA1' in acc and env in ('good', 'good711')
+                                   else COOKIE_CONTEXTS[:1]):
+                            cfgs.append({'accepts': [a.decode() for a in acc], 'unix': unix, 'fd_agree': fd,
+                                         'env': env, 'ctx': cx.decode()})
     out = ctx.model([hs_driver_line(dict(c, accepts=[a.encode() for a in c['accepts']]), envs) for c in cfgs])
     for c, m in zip(cfgs, out or [None] * len(cfgs)):
         cfg = dict(c, accepts=[a.encode() for a in c['accepts']])
         base = judge_handshake(ctx, world, envs, cfg, c, m)
-        if c['env'] in ('good', 'nodir'):
+        if c['env'] in ('good', 'nodir') and c['ctx'] == 'ctxa':
             # the same handshake with every server answer cut at every single position / byte by byte
             for name, deliver in deliveries(base[1]):
                 if name != 'whole':
@@ -1184,7 +1220,7 @@ def _run(ctx, world, envs, tmp):
             corpus_cases.append({k: inp[k] for k in ('unix', 'env', 'chunks', 'pref') if k in inp})
         elif inp.get('kind') == 'hs' and inp.get('env') in envs:
             cfg = dict(inp, accepts=[a.encode() for a in inp['accepts']])
-            shown = {k: inp[k] for k in ('accepts', 'unix', 'fd_agree', 'env')}
+            shown = {k: inp[k] for k in ('accepts', 'unix', 'fd_agree', 'env', 'ctx') if k in inp}
             m = ctx.model([hs_driver_line(cfg, envs)])
             base = judge_handshake(ctx, world, envs, cfg, shown, m[0] if m else None)
             if inp.get('delivery'):
@@ -1307,7 +1343,7 @@ def replay(ctx, data):
             judge(ctx, world, 'replay', case, envs, m[0] if m else None)
         elif kind == 'hs':
             cfg = dict(inp, accepts=[a.encode() for a in inp['accepts']])
-            shown = {k: inp[k] for k in ('accepts', 'unix', 'fd_agree', 'env')}
+            shown = {k: inp[k] for k in ('accepts', 'unix', 'fd_agree', 'env', 'ctx') if k in inp}
             m = ctx.model([hs_driver_line(cfg, envs)])
             base = judge_handshake(ctx, world, envs, cfg, shown, m[0] if m else None)
             if inp.get('delivery'):
